@@ -474,9 +474,14 @@ func main() {
 	if !worker {
 		r.Fork(len(cfgs), nil, nil)
 		if exe := os.Getenv("VERIF_RACE_EXE"); exe != "" {
-			cmd := exec.Command(exe)
+			rctx, rcancel := context.WithTimeout(context.Background(), 5*time.Minute) // harness safety only
+			cmd := exec.CommandContext(rctx, exe)
 			cmd.Env = append(os.Environ(), "VERIF_RACE_RUN=1", "GOMAXPROCS=8", "GORACE=halt_on_error=0")
 			out, _ := cmd.CombinedOutput()
+			if rctx.Err() != nil {
+				r.Cap("free-running -race pass was cut off after 5 minutes")
+			}
+			rcancel()
 			n := strings.Count(string(out), "WARNING: DATA RACE")
 			r.Set("race_pass_reports", n)
 			if n > 0 {
@@ -535,9 +540,10 @@ func racePass(cfgs []config) {
 				srv.SubscribeSignedVAA(req, st)
 			}(i)
 		}
+		// publishers are not waited for: a Publish that raced with a departing subscriber stays parked
+		// (the recorded known finding); the pass only collects DATA RACE reports
 		for p := 0; p < 5; p++ {
-			wg.Add(1)
-			go func(p int) { defer wg.Done(); srv.Publish(vaaBytes(emitters[p%3], uint64(p))) }(p)
+			go func(p int) { srv.Publish(vaaBytes(emitters[p%3], uint64(p))) }(p)
 		}
 		time.Sleep(2 * time.Millisecond)
 		for _, st := range streams {
